@@ -36,6 +36,9 @@ REQUIRE = {"scale:run_with_more_than_128_suspensions_on_one_pool": 1, "rounds_ch
 
 def cases(tier, seed, shard, nshards):
     rng = rng_for(ID, seed, shard)
+    if tier == "thorough" and shard == 0:
+        # > 16,384 completed suspensions in one pool (about three minutes; thorough tier only)
+        yield _sim.scale_case(rng, "huge-storm")
     for i in range(N_PRE[tier]):
         yield _sim.preemption_case(rng, algo="priority" if rng.random() < 0.8 else "priority-pool", oom=rng.random() < 0.4)
     for i in range(N_RND[tier]):
